@@ -247,6 +247,9 @@ type Exec struct {
 	mencBuf [2]*bytes.Buffer
 	mencOK  [2]bool
 	lastEnc *ev
+	// stalled[d]: the writer of relay d stands still (its destination accepts no bytes): op `stall`,
+	// until op `release`. Needs the hook StepStalled / Release (repo-patches/C08-hook-relay-stall.patch).
+	stalled [2]bool
 	lastEmpty bool // the block just completed means an empty field list
 	// failures of the open findings are reported by the closing op `drained`, so that within a case
 	// they cannot hide a different failure that comes later
@@ -352,6 +355,18 @@ func (x *Exec) Do(op string) core.Result {
 	if t[0] == "drained" {
 		return x.drained()
 	}
+	if t[0] == "release" && !x.dead {
+		// every writer runs again; afterwards the relays are at rest and the usual checks apply: a
+		// `ping` (a direct write, no queue involved) is used as the carrier step
+		if st, okh := interface{}(x.pair).(stallHook); okh {
+			st.Release()
+		}
+		x.stalled = [2]bool{}
+		core.Count("op:release")
+		r := x.Do("ping c 0 x0000000000000000")
+		r.SkipModel = true
+		return r
+	}
 	if t[0] == "e2e-preface" && len(t) == 2 {
 		if x.prop != "C08" {
 			return core.Result{Impl: "e2e skipped", SkipModel: true}
@@ -360,6 +375,12 @@ func (x *Exec) Do(op string) core.Result {
 	}
 	if strings.HasPrefix(t[0], "hp.") {
 		return x.hpOp(t)
+	}
+	if t[0] == "e2e-bigframe" && len(t) == 3 {
+		if x.prop != "C08" {
+			return core.Result{Impl: "e2e skipped", SkipModel: true}
+		}
+		return e2eBigFrame(t[1], t[2])
 	}
 	if x.dead {
 		return core.Result{Impl: "dead", SkipModel: x.realHpack || x.skipRest}
@@ -589,6 +610,16 @@ func (x *Exec) Do(op string) core.Result {
 		core.Count("op:hb-representations:" + hbKinds(is))
 		x.completeBlock(e)
 		needEnc = true
+	case "stall": // stall e : from now on nothing relay e (frames sent by endpoint e) puts on its output channel is written out
+		st, okh := interface{}(x.pair).(stallHook)
+		if len(t) != 2 || !okh || st == nil {
+			core.Count("stall:hook-unavailable")
+			x.dead, x.skipRest = true, true
+			return core.Result{Impl: "stall unavailable", SkipModel: true}
+		}
+		x.stalled[e], x.skipRest = true, true // the schedule is outside the model: the rest is oracle-only
+		core.Count("op:stall")
+		return core.Result{Impl: "ok", SkipModel: true}
 	case "prio": // prio e sid p
 		if len(t) != 4 {
 			return core.Result{Impl: "bad-op"}
@@ -751,9 +782,15 @@ func (x *Exec) Do(op string) core.Result {
 	}
 	core.Count("op:" + t[0])
 
-	err := x.pair.Step(h2.Direction(d))
+	step := func() error {
+		if x.stalled[0] || x.stalled[1] {
+			return interface{}(x.pair).(stallHook).StepStalled(h2.Direction(d), x.stalled)
+		}
+		return x.pair.Step(h2.Direction(d))
+	}
+	err := step()
 	for err == nil && x.fromEP[e].Len() > 0 { // an op that wrote two frames (hbc)
-		err = x.pair.Step(h2.Direction(d))
+		err = step()
 	}
 	status := "ok"
 	if err != nil {
@@ -1070,7 +1107,7 @@ func (x *Exec) Do(op string) core.Result {
 				qs = strings.Join(q, "+")
 			}
 			parts = append(parts, fmt.Sprintf("%d:%d:%s", st.ID, st.Window, qs))
-			if status == "ok" && len(st.Queue) > 0 {
+			if status == "ok" && len(st.Queue) > 0 && !x.stalled[dir] {
 				core.Count("queued-at-rest")
 				h := int64(st.Queue[0].FlowSize)
 				sw := x.rInit[dir] + x.rWU[dir][st.ID] - x.rRecv[dir][st.ID]
@@ -1091,7 +1128,7 @@ func (x *Exec) Do(op string) core.Result {
 		// whose output buffer it has discarded, is in no queue): DATA the sender has handed over, not yet
 		// received, all of which fits the credit the receiver has granted - with nothing in flight it
 		// would have been delivered.
-		if status == "ok" {
+		if status == "ok" && !x.stalled[dir] {
 			queuedOn := map[uint32]bool{}
 			for _, st := range s.Streams {
 				if len(st.Queue) > 0 {
@@ -1525,4 +1562,11 @@ func cutBlock(b []byte, spec string) ([][]byte, bool) {
 		last = at
 	}
 	return append(out, b[last:]), true
+}
+
+// stallHook: the part of h2.VerifRelayPair added by repo-patches/C08-hook-relay-stall.patch
+// (asserted dynamically so that the harness also builds against a tree without it).
+type stallHook interface {
+	StepStalled(dir h2.Direction, stalled [2]bool) error
+	Release()
 }
